@@ -281,6 +281,7 @@ func (w *WAL) mutateStateLocked(tx stateTxn) error {
 	}
 
 	w.s.Store(&newS)
+	verifPoint("mutate.published")
 	s.finalizer.Store(fn)
 	return nil
 }
@@ -291,6 +292,7 @@ func (w *WAL) mutateStateLocked(tx stateTxn) error {
 // truncated concurrently.
 func (w *WAL) acquireState() (*state, func()) {
 	s := w.loadState()
+	verifPoint("acquireState.loaded")
 	return s, s.acquire()
 }
 
@@ -314,6 +316,7 @@ func (w *WAL) FirstIndex() (uint64, error) {
 	if err := w.checkClosed(); err != nil {
 		return 0, err
 	}
+	verifPoint("FirstIndex.afterClosedCheck")
 	s, release := w.acquireState()
 	defer release()
 	return s.firstIndex(), nil
@@ -324,6 +327,7 @@ func (w *WAL) LastIndex() (uint64, error) {
 	if err := w.checkClosed(); err != nil {
 		return 0, err
 	}
+	verifPoint("LastIndex.afterClosedCheck")
 	s, release := w.acquireState()
 	defer release()
 	return s.lastIndex(), nil
@@ -334,6 +338,7 @@ func (w *WAL) GetLog(index uint64, log *raft.Log) error {
 	if err := w.checkClosed(); err != nil {
 		return err
 	}
+	verifPoint("GetLog.afterClosedCheck")
 	s, release := w.acquireState()
 	defer release()
 	w.metrics.IncrementCounter("log_entries_read", 1)
@@ -359,10 +364,12 @@ func (w *WAL) StoreLogs(logs []*raft.Log) error {
 	if err := w.checkClosed(); err != nil {
 		return err
 	}
+	verifPoint("StoreLogs.afterClosedCheck")
 	if len(logs) < 1 {
 		return nil
 	}
 
+	verifPoint("StoreLogs.beforeLock")
 	w.writeMu.Lock()
 	defer w.writeMu.Unlock()
 
@@ -453,6 +460,7 @@ func (w *WAL) awaitRotationLocked() {
 		// We managed to race for writeMu with the background rotate operation which
 		// needs to complete first. Wait for it to complete.
 		w.writeMu.Unlock()
+		verifPoint("awaitRotation.unlocked")
 		<-awaitCh
 		w.writeMu.Lock()
 	}
@@ -465,11 +473,13 @@ func (w *WAL) DeleteRange(min uint64, max uint64) error {
 	if err := w.checkClosed(); err != nil {
 		return err
 	}
+	verifPoint("DeleteRange.afterClosedCheck")
 	if min > max {
 		// Empty inclusive range.
 		return nil
 	}
 
+	verifPoint("DeleteRange.beforeLock")
 	w.writeMu.Lock()
 	defer w.writeMu.Unlock()
 
@@ -526,6 +536,7 @@ func (w *WAL) Set(key []byte, val []byte) error {
 	if err := w.checkClosed(); err != nil {
 		return err
 	}
+	verifPoint("Set.afterClosedCheck")
 	w.metrics.IncrementCounter("stable_sets", 1)
 	return w.metaDB.SetStable(key, val)
 }
@@ -535,6 +546,7 @@ func (w *WAL) Get(key []byte) ([]byte, error) {
 	if err := w.checkClosed(); err != nil {
 		return nil, err
 	}
+	verifPoint("Get.afterClosedCheck")
 	w.metrics.IncrementCounter("stable_gets", 1)
 	return w.metaDB.GetStable(key)
 }
@@ -578,8 +590,10 @@ func (w *WAL) triggerRotateLocked(indexStart uint64) {
 func (w *WAL) runRotate() {
 	for {
 		indexStart := <-w.triggerRotate
+		verifPoint("runRotate.triggered")
 
 		w.writeMu.Lock()
+		verifPoint("runRotate.locked")
 
 		// Either triggerRotate was closed by Close, or Close raced with a real
 		// trigger, either way shut down without changing anything else. In the
@@ -911,10 +925,12 @@ func (w *WAL) Close() error {
 		// Only close once
 		return nil
 	}
+	verifPoint("Close.flagged")
 
 	// Wait for writes
 	w.writeMu.Lock()
 	defer w.writeMu.Unlock()
+	verifPoint("Close.locked")
 
 	// It doesn't matter if there is a rotation scheduled because runRotate will
 	// exist when it sees we are closed anyway.
